@@ -7,3 +7,17 @@ pub mod sync;
 pub mod thread;
 
 pub use rt::{exec_local, drop_exec_locals};
+
+/// Replacement for the parts of `std::panic` the library uses: catching a panic also clears the per-task panicking flag
+/// (simulated threads share one OS thread, so `std::thread::panicking()` cannot be used for them).
+pub mod panic {
+    pub use std::panic::{AssertUnwindSafe, UnwindSafe};
+
+    pub fn catch_unwind<F: FnOnce() -> R + UnwindSafe, R>(f: F) -> std::thread::Result<R> {
+        let r = std::panic::catch_unwind(f);
+        if r.is_err() && crate::rt::in_task() {
+            crate::rt::clear_panicking_public();
+        }
+        r
+    }
+}
